@@ -8,5 +8,6 @@ CONSTANTS
   TD <- ToDec
   NT <- NumText
   NTL <- NumTextLocBug
+  CV <- Convert
 INVARIANTS LawDecLocShape
 CHECK_DEADLOCK FALSE
